@@ -610,6 +610,9 @@ class World:
     def op_source(self, nsrc):
         r = self.rng
         s = r.choice(self.sss)
+        if r.random() < 0.1:
+            self.emit('source %d ?%d' % (s, r.randint(1, 9)))      # an alias nobody registered
+            return
         self.emit('source %d %s' % (s, r.choice(['-'] + [str(k) for k in range(1, nsrc + 1)] * 2)))
 
     def op_read(self):
